@@ -7,7 +7,7 @@ From Flocq Require Import Core BinarySingleNaN.
 Require Import NixV.Base.Prelude NixV.Base.F64 NixV.Base.F64Facts NixV.Gen.GenDimensions.
 Require Import NixV.Axis.AxisSpec NixV.Axis.AxisSpecProofs NixV.Axis.SampledHand NixV.Axis.SearchProofs
                NixV.Axis.SampledProofs NixV.Axis.IntAxisProofs NixV.Axis.RangeModel NixV.Axis.RangeProofs
-               NixV.Axis.RoundTrip.
+               NixV.Axis.RoundTrip NixV.Axis.Totality.
 Local Open Scope Z_scope.
 
 (** Sampled axis, coordinates x_i = fl(fl(i*dt)+offset) for i in [0, 2^53]: for every finite
@@ -96,6 +96,16 @@ Theorem C07_oracle_sound : forall (x : Z -> F64) N p, finite p ->
               rule_spec x (Some N) PositionMatch_Equal p (spec_equal x p le)).
 Proof. intros x N p Fp Fx Hm. split; [apply index_ok_sound; assumption|apply equal_of_le; assumption]. Qed.
 Print Assumptions C07_oracle_sound.
+
+(** totality: for EVERY double input (NaN, infinities, huge values) the generated conversions
+    return a value: no undefined double->index cast, no empty-optional dereference, no exception,
+    no exhausted fuel *)
+Theorem C07_no_UB : 
+  (forall p off dt m, exists r, getSampledIndex p off dt m = Ok r) /\
+  (forall p labels m, zlen labels < two64 -> exists r, getSetIndex p labels m = Ok r) /\
+  (forall p k m, 0 <= k < two64 -> exists r, getDataFrameIndex p k m = Ok r).
+Proof. exact (conj getSampledIndex_total (conj getSetIndex_total getDataFrameIndex_total)). Qed.
+Print Assumptions C07_no_UB.
 
 (** non-vacuity: interval 0.1, no offset — sample 3 (the first one that did not convert back before
     the repair) converts back under every rule; evaluated inside Coq *)
